@@ -898,8 +898,23 @@ def gen_expr_text(rng, depth, comments=True):
         if rng.chance(1, 4):
             l = "(" + l + ")"
         return f"{l} {cm()}{op} {r}"
-    if k < 8:
+    if k < 7:
         return cm() + rng.pick(["!", "-"]) + "(" + gen_expr_text(rng, depth - 1, comments) + ")"
+    if k < 9:
+        # member access / call chains (round 6): base, then .name and (args) with comments everywhere
+        base = gen_expr_text(rng, depth - 1, comments)
+        if rng.chance(1, 2) or not base.replace("_", "a").isalnum():
+            base = "(" + base + ")"
+        for _ in range(rng.range(1, 4)):
+            if rng.chance(1, 2):
+                base += (" " + cm() if rng.chance(1, 3) else "") + "." + rng.pick(["f", "gg", "someLongerMemberName"])
+            else:
+                n = rng.range(0, 3)
+                args = [gen_expr_text(rng, max(0, depth - 2), comments) for _ in range(n)]
+                inner = ", ".join(args)
+                tail = " /* t */" if comments and rng.chance(1, 5) and "//" not in inner[-14:] else ""
+                base += "(" + cm() + inner + tail + ")"
+        return base
     return "(" + cm() + gen_expr_text(rng, depth - 1, comments) + ")"
 
 
@@ -913,6 +928,39 @@ def gen_chain_text(rng, depth):
     if rng.chance(1, 2):
         base = base + " " + rng.pick(["+", "*", "&&"]) + " " + gen_expr_text(rng, 1, comments=True)
     return base
+
+
+def inner_chain_comments(toks):
+    """True if some F/K node that is the object / callee of another F/K node carries comments."""
+    pos = 0
+    bad = False
+    def node(inner):
+        nonlocal pos, bad
+        k = toks[pos]; pos += 1
+        cs = toks[pos]; pos += 1
+        if k == "A":
+            pos += 1
+        elif k == "U":
+            pos += 1; node(False)
+        elif k == "B":
+            pos += 2; node(False); node(False)
+        elif k == "F":
+            if inner and cs != "-":
+                bad = True
+            node(True); pos += 2
+        elif k == "K":
+            if inner and cs != "-":
+                bad = True
+            node(True); pos += 1
+            n = int(toks[pos]); pos += 1
+            for _ in range(n):
+                node(False)
+            pos += 1
+    try:
+        node(False)
+    except (IndexError, ValueError):
+        return False
+    return bad
 
 
 def fragment_phase(ctx, n):
@@ -1000,6 +1048,16 @@ def fragment_phase(ctx, n):
             mlines.append("echo " + a)
     model = run_d(mlines)
     ndocs = sum(1 for a in impl if a.startswith("ok "))
+    nchains = 0
+    for t, a in zip(texts, impl):
+        if a.startswith("ok "):
+            toks = a.split(" | ")[0].split(" ")[2:]
+            bad_inner = inner_chain_comments(toks)
+            nchains += int("F" in toks or "K" in toks)
+            if bad_inner:
+                ctx.violation("the parser attached a comment to an inner node of a dotted chain; create_chainable_ir_docs never prints it (theorem inner_chain_comment_not_printed)",
+                              {"protocol": "exprdoc", "text": t, "tree": " ".join(toks)})
+                break
     for t, w, a in zip(texts, widths, impl):
         if a.startswith("panic"):
             ctx.violation("formatting an expression panics: " + uh(a[6:])[:100], {"protocol": "exprdoc", "text": t, "width": w, "impl": a})
@@ -1013,7 +1071,7 @@ def fragment_phase(ctx, n):
                        "model_text": uh(b.split(" ")[1]) if b.startswith("ok ") else None,
                        "broken": "correspondence `exprdoc`; docOf_ok / expression_layout_text speak about the model only"}, no_input=True)
     return {"attachment_skeletons_compared": nskel, "list_productions_compared": nlists,
-            "expression_documents_equal_to_model": ndocs}, 2 * n + nlists
+            "expression_documents_equal_to_model": ndocs, "of_which_with_member_access_or_call": nchains}, 2 * n + nlists
 
 
 def regen_contexts():
@@ -1082,7 +1140,7 @@ def run(ctx):
         "samples": samples,
         "traces_validated_against_impl": n1 + n2 + n3 + n5 + extra.get("real_documents_laid_out_by_model", 0),
         "part_b_fragment_corollaries": partb,
-        "pending": ["layout-level idempotence as one theorem: needs a lexer model to read the laid-out text back into tokens (today: token-level round trip with comments + `expression_layout_text`: the layout of the arithmetic fragment is exactly its comment/token sequence); document construction of calls, dotted chains, if-else, match, statements, declarations; comments on operator tokens in the C08 round trip; C09-F4 (pinned test), rest of C09-F6 (needs a trailing-comment slot)"],
+        "pending": ["layout-level idempotence as one theorem: needs (a) a proof that lexing the laid-out text returns the item sequence (builder-C05's Model/Lexer.lean is a byte-level longest-match lexer with a keyword table: a round trip over arbitrary identifier/operator adjacency was not attempted) and (b) a parser model for the comment-carrying fragment; today: `expression_layout_text` (layout = comment/token sequence at every width, now incl. member access, calls, dotted chains, argument lists) + token-level round trip with comments on the C08 fragment; document construction of if-else, match, lambdas, tuples, blocks/statements, declarations, type arguments on members; comments on operator tokens in the C08 round trip; C09-F4 (pinned test), rest of C09-F6 (needs a trailing-comment slot)"],
         "partial_theorems": {"format_idempotent_fragment_partial / roundtrip_with_comments_partial / format_idempotent_with_comments_partial": "C08's decidable side condition RT e; token level; comments on atoms (normal form the parser produces since fix a0babc7); atom table without duplicates",
                              "lineComment/multilineComment_content_equal": "content read modulo the repeated leaders `// ` and ` * ` (commentKey)"},
     })
@@ -1091,7 +1149,7 @@ def run(ctx):
                         "char::is_whitespace = Unicode White_Space as listed in Model/Doc.lean isWs",
                         "the lexer's comment tokens are taken as the definition of `the comments of a text` (oracle uses the real token producer on input and output)"]
     return ctx.finish(res, trusted=common.TRUSTED_COMMON + [
-        "hand-written models Model/Doc.lean (all of prettier.rs), Model/CommentQueue.lean (peek/consume, create_comment_reference, comment prepending), Model/Imports.lean (import grouping/merging/sorting and import_to_document); Model/Attach.lean (outer vs leftmost attachment of preceding comments, keep_parenthesis_comments on the skeleton, normal form), Model/ExprDoc.lean (create_doc for identifiers/int literals/unary/binary with comments); builder-C08's Model/Fmt.lean for the fragment corollaries",
+        "hand-written models Model/Doc.lean (all of prettier.rs), Model/CommentQueue.lean (peek/consume, create_comment_reference, comment prepending), Model/Imports.lean (import grouping/merging/sorting and import_to_document); Model/Attach.lean (outer vs leftmost attachment of preceding comments, keep_parenthesis_comments on the skeleton, normal form), Model/ExprDoc.lean (create_doc for identifiers/int literals/unary/binary/member access/calls/dotted chains/argument lists with comments); builder-C08's Model/Fmt.lean for the fragment corollaries",
         "hooks samlang_printer::verif_hooks (layout/expand/flatten/module_doc) and samlang_parser::verif_hooks_queue",
         "not modelled (oracle only): the per-production comment attachment of source_parser.rs and the per-construct document construction of source_printer.rs; for the latter the hypothesis Agree(commentKey) of layout_preserves_text is evaluated on the real documents at run time",
         "vlib/c09_contexts.json: token contexts of the open findings C09-F2/C09-F3 (reference enumeration on the unchanged tree)"])
